@@ -245,7 +245,8 @@ def r194(repo, ctx, index):
         n += 1
         reads = set()
         for name in ('_getData', '_poll'):
-            m = index.methods(key).get(name)
+            # the method an instance of exactly this class runs (own or inherited), with class-level literals resolved for this class
+            m = index.specialised(key, name)
             if m is not None:
                 for node in ast.walk(m):
                     if isinstance(node, ast.Attribute) and U.chain(node) and U.chain(node)[:2] == ('model', 'pData') and len(U.chain(node)) >= 3:
